@@ -2,7 +2,10 @@ package rules
 
 import (
 	"fmt"
+	"go/token"
 	"go/types"
+	"sort"
+	"strings"
 
 	"golang.org/x/tools/go/ssa"
 
@@ -196,5 +199,88 @@ func c14DownAfterUnregister(p *load.Program, r *core.Report) {
 				r.Bad(rule, key, fn, p.Pos(in.Pos()), inst, "the notifications go out while the dead connection is still registered: a consumer that monitors/links the node again in its down handler is accepted over the dead connection and is never notified")
 			}
 		})
+	}
+}
+
+// c12ErrorCodesAgree: R14 — the outcome of an important delivery travels back as a one-byte code
+// (a few frequent errors) or as 255 followed by the encoded error. Every code the writer can put into
+// that byte has an arm in the reader's switch over the same byte; a code without an arm falls into
+// the reader's default branch, the response is dropped and the sender waits for its timeout.
+func c12ErrorCodesAgree(p *load.Program, r *core.Report) {
+	rule := "C12.R14 response-error-codes-agree"
+	r.Floor(rule, 1)
+	w := p.Func("net/proto", "connection", "SendResponseError")
+	rd := p.Func("net/proto", "connection", "handleRecvQueue")
+	if w == nil || rd == nil {
+		r.Unk(rule, "C12.R14|anchors", "", "", "SendResponseError and handleRecvQueue are found", "missing")
+		return
+	}
+	// writer: constant stores into buf.B[k], k constant, in a switch over the error
+	written := map[int64]map[int64]ssa.Instruction{} // index -> code -> store
+	eachInstr(w, func(in ssa.Instruction) {
+		st, ok := in.(*ssa.Store)
+		if !ok {
+			return
+		}
+		ia, ok := st.Addr.(*ssa.IndexAddr)
+		if !ok {
+			return
+		}
+		k, okk := constInt(ia.Index)
+		c, okc := constInt(st.Val)
+		if !okk || !okc {
+			return
+		}
+		if written[k] == nil {
+			written[k] = map[int64]ssa.Instruction{}
+		}
+		written[k][c] = in
+	})
+	// the index that takes several different codes is the error byte
+	var idx int64 = -1
+	for k, m := range written {
+		if len(m) >= 3 && (idx < 0 || len(m) > len(written[idx])) {
+			idx = k
+		}
+	}
+	key := "C12.R14|" + fname(w)
+	inst := "every error code the response writer stores has an arm in the reader's switch over that byte"
+	if idx < 0 {
+		r.Unk(rule, key, fname(w), p.Pos(w.Pos()), inst, "no byte of the frame takes several constant codes")
+		return
+	}
+	handled := map[int64]bool{}
+	eachInstr(rd, func(in ssa.Instruction) {
+		b, ok := in.(*ssa.BinOp)
+		if !ok || b.Op != token.EQL {
+			return
+		}
+		c, okc := constInt(b.Y)
+		if !okc {
+			return
+		}
+		ld, ok := b.X.(*ssa.UnOp)
+		if !ok {
+			return
+		}
+		ia, ok := ld.X.(*ssa.IndexAddr)
+		if !ok {
+			return
+		}
+		if k, okk := constInt(ia.Index); okk && k == idx {
+			handled[c] = true
+		}
+	})
+	var missing []string
+	for c, st := range written[idx] {
+		if !handled[c] {
+			missing = append(missing, fmt.Sprintf("%d (stored at %s)", c, p.Pos(st.Pos())))
+		}
+	}
+	sort.Strings(missing)
+	if len(missing) == 0 {
+		r.OK(rule, key, fname(w), p.Pos(w.Pos()), inst, fmt.Sprintf("byte %d: %d codes written, all handled (%d arms in the reader)", idx, len(written[idx]), len(handled)))
+	} else {
+		r.Bad(rule, key, fname(w), p.Pos(w.Pos()), inst, fmt.Sprintf("byte %d: code(s) %s have no arm in handleRecvQueue: the response is dropped there and the sender of the important message gets a timeout instead of the remote reason", idx, strings.Join(missing, ", ")))
 	}
 }
